@@ -416,10 +416,27 @@ func exRel(a kv) string {
 		_ = os.Setenv("PATH", filepath.Join(dir, "pathdir")+":"+oldPath)
 		defer func() { _ = os.Setenv("PATH", oldPath) }()
 	}
+	path := a.str("path", "bin/probe.sh")
+	if a.str("variant", "") == "blank" {
+		// a root-owned script WITHOUT an interpreter line (the kernel refuses it: exec format error) whose path has a blank
+		// in it; a file named like the part before the blank belongs to somebody else. Whatever the call does about the
+		// refused start, that other file is never what runs (seed C18k: the path was handed to `/bin/sh -c` unquoted)
+		p := filepath.Join(dir, "fan tools", "probe.sh")
+		_ = os.MkdirAll(filepath.Dir(p), 0o755)
+		if err := os.WriteFile(p, []byte("echo x >> "+filepath.Join(dir, "good")+"\necho 7\n"), 0o755); err != nil {
+			panic(err)
+		}
+		exSetStat(p, 0, 0, 0o755)
+		mk("fan", "bad", 1000, 0o777)
+		path = "./fan tools/probe.sh"
+		if a.str("path", "") == "abs" {
+			path = p
+		}
+	}
 	if err := os.Chdir(dir); err != nil {
 		panic(err)
 	}
-	run := exRunSafe(a.str("path", "bin/probe.sh"), nil, 2*time.Second)
+	run := exRunSafe(path, nil, 2*time.Second)
 	time.Sleep(10 * time.Millisecond)
 	good := exExists(filepath.Join(dir, "good")) || exExists(filepath.Join(dir, "good2"))
 	return fmt.Sprintf("run=%s good=%s bad=%s", run, exB01(exCountMarker(good)), exB01(exExists(filepath.Join(dir, "bad"))))
